@@ -96,17 +96,23 @@ func genC11(t *rapid.T) CaseC11 {
 func sameBytes(a, b []byte) bool { return len(a) == len(b) && (len(a) == 0 || bytes.Equal(a, b)) }
 
 // c11Header checks NewPESHeader on the complete PES bytes.
-func c11Header(p *ref.PES) *hx.Failure {
+func c11Header(p *ref.PES, order int) *hx.Failure {
 	raw := p.Bytes()
 	keep := clone(raw)
 	h, err := pes.NewPESHeader(raw)
-	what := fmt.Sprintf("stream_id %#x pts_dts %d header_data_length %d data %d bytes", p.StreamID, p.PTSDTS, p.HeaderDataLength(), len(p.Data))
 	if err != nil {
-		return hx.Failf("pes-error", "NewPESHeader failed on a well-formed PES start (%s): %v", what, err)
+		return hx.Failf("pes-error", "NewPESHeader failed on a well-formed PES start (stream_id %#x pts_dts %d header_data_length %d data %d bytes): %v", p.StreamID, p.PTSDTS, p.HeaderDataLength(), len(p.Data), err)
 	}
 	if !bytes.Equal(keep, raw) {
 		return hx.Failf("pes-mutates", "NewPESHeader modified its input")
 	}
+	return c11CompareHeader(h, p, order)
+}
+
+// c11CompareHeader compares every getter with the model; order selects the
+// sequence in which the timestamp getters are called (a getter must not depend on another having run).
+func c11CompareHeader(h pes.PESHeader, p *ref.PES, order int) *hx.Failure {
+	what := fmt.Sprintf("stream_id %#x pts_dts %d header_data_length %d data %d bytes, getter order %d", p.StreamID, p.PTSDTS, p.HeaderDataLength(), len(p.Data), order)
 	wantPrefix := uint32(p.Prefix[0])<<16 | uint32(p.Prefix[1])<<8 | uint32(p.Prefix[2])
 	if h.PacketStartCodePrefix() != wantPrefix {
 		return hx.Failf("pes-prefix", "PacketStartCodePrefix() = %#x, want %#x (%s)", h.PacketStartCodePrefix(), wantPrefix, what)
@@ -123,20 +129,43 @@ func c11Header(p *ref.PES) *hx.Failure {
 		}
 		return nil
 	}
-	if h.DataAligned() != p.Align {
-		return hx.Failf("pes-align", "DataAligned() = %v, encoded %v (%s)", h.DataAligned(), p.Align, what)
+	checkDTS := func() *hx.Failure {
+		if h.HasDTS() != (p.PTSDTS == 3) {
+			return hx.Failf("pes-ptsdts-flags", "HasDTS=%v, encoded PTS_DTS_flags %d (%s)", h.HasDTS(), p.PTSDTS, what)
+		}
+		if p.PTSDTS == 3 && h.DTS() != p.DTS {
+			return hx.Failf("pes-dts", "DTS() = %d, encoded %d (%s)", h.DTS(), p.DTS, what)
+		}
+		return nil
 	}
-	if h.HasPTS() != (p.PTSDTS != 0) || h.HasDTS() != (p.PTSDTS == 3) {
-		return hx.Failf("pes-ptsdts-flags", "HasPTS=%v HasDTS=%v, encoded PTS_DTS_flags %d (%s)", h.HasPTS(), h.HasDTS(), p.PTSDTS, what)
+	checkPTS := func() *hx.Failure {
+		if h.HasPTS() != (p.PTSDTS != 0) {
+			return hx.Failf("pes-ptsdts-flags", "HasPTS=%v, encoded PTS_DTS_flags %d (%s)", h.HasPTS(), p.PTSDTS, what)
+		}
+		if p.PTSDTS != 0 && h.PTS() != p.PTS {
+			return hx.Failf("pes-pts", "PTS() = %d, encoded %d (%s)", h.PTS(), p.PTS, what)
+		}
+		return nil
 	}
-	if p.PTSDTS != 0 && h.PTS() != p.PTS {
-		return hx.Failf("pes-pts", "PTS() = %d, encoded %d (%s)", h.PTS(), p.PTS, what)
+	checkData := func() *hx.Failure {
+		if h.DataAligned() != p.Align {
+			return hx.Failf("pes-align", "DataAligned() = %v, encoded %v (%s)", h.DataAligned(), p.Align, what)
+		}
+		if !sameBytes(h.Data(), p.Data) {
+			return hx.Failf("pes-data", "Data() is %d bytes, want the %d bytes after the 9+%d byte header (%s)\n got  %x\n want %x", len(h.Data()), len(p.Data), p.HeaderDataLength(), what, head(h.Data(), 24), head(p.Data, 24))
+		}
+		return nil
 	}
-	if p.PTSDTS == 3 && h.DTS() != p.DTS {
-		return hx.Failf("pes-dts", "DTS() = %d, encoded %d (%s)", h.DTS(), p.DTS, what)
+	seqs := [][]func() *hx.Failure{
+		{checkPTS, checkDTS, checkData},
+		{checkDTS, checkPTS, checkData},
+		{checkData, checkDTS, checkDTS, checkPTS},
+		{checkDTS, checkData, checkPTS, checkDTS},
 	}
-	if !sameBytes(h.Data(), p.Data) {
-		return hx.Failf("pes-data", "Data() is %d bytes, want the %d bytes after the 9+%d byte header (%s)\n got  %x\n want %x", len(h.Data()), len(p.Data), p.HeaderDataLength(), what, head(h.Data(), 24), head(p.Data, 24))
+	for _, fn := range seqs[order%len(seqs)] {
+		if f := fn(); f != nil {
+			return f
+		}
 	}
 	return nil
 }
@@ -228,7 +257,7 @@ func checkC11(c CaseC11, x *hx.Ctx) *hx.Failure {
 	x.LabelIf(c.FlipBit >= 0, "prefix-corrupted")
 	x.LabelIf(!c.PUSI, "no-pusi")
 	x.LabelIf(c.PaySize < 9+p.HeaderDataLength(), "header-cut-by-packet")
-	if f := c11Header(p); f != nil {
+	if f := c11Header(p, c.CC+c.PaySize); f != nil {
 		return f
 	}
 	return c11Transport(c)
